@@ -26,6 +26,10 @@ assume pure func (t reflect.Type) Kind() reflect.Kind
 -- the kind of a value is the kind of its type
 assume pure func (v reflect.Value) Type() (t reflect.Type)
   ensures t.Kind() == v.Kind()
+  ensures !isnil(t)
+
+assume pure func (t reflect.Type) Elem() (r reflect.Type)
+  ensures !isnil(r)
 
 assume pure func (v reflect.Value) Elem() reflect.Value
 
